@@ -24,23 +24,25 @@ func c18(e *Env) {
 	sy := e.symbolizer()
 	// ---- R1 drain in NewTask
 	ob1 := r.Ob("R1", "NewTask:drain-sub-stream", "the carrier's SubStream channel is ranged to closure and every received IP is appended, in order, to a slice fresh for this port")
-	nt := a.newTask
-	var stores []*ssa.MapUpdate
-	for _, b := range nt.Blocks {
-		for _, in := range b.Instrs {
-			if mu, ok := in.(*ssa.MapUpdate); ok {
-				if f := fieldOfLoad(mu.Map); f != nil && f.Name() == "subStreamIPs" {
-					stores = append(stores, mu)
-				}
-			}
+	fi0 := e.formatter()
+	gt := fi0.g
+	if gt == nil {
+		ob1.Unknown("-", "NewTask's expanded CFG not available")
+		return
+	}
+	xs := e.xsym()
+	nStores := 0
+	for _, mn := range gt.Nodes {
+		mu, ok := mn.Instr.(*ssa.MapUpdate)
+		if !ok {
+			continue
 		}
-	}
-	if len(stores) == 0 {
-		ob1.Fail(core.FuncName(nt), "NewTask never fills Task.subStreamIPs")
-	}
-	for _, mu := range stores {
-		v := sy.InFunc(nt, mu.Value)
-		k := sy.InFunc(nt, mu.Key).String()
+		if f := fieldOfLoad(mu.Map); f == nil || f.Name() != "subStreamIPs" {
+			continue
+		}
+		nStores++
+		v := xs.InCtx(mn.Ctx, mu.Value)
+		k := xs.InCtx(mn.Ctx, mu.Key).String()
 		alts := map[string]*core.Sym{}
 		var collect func(z *core.Sym, d int)
 		collect = func(z *core.Sym, d int) {
@@ -57,13 +59,28 @@ func c18(e *Env) {
 		hasAppendRecv := false
 		for s, z := range alts {
 			switch {
-			case s == "[]":
-				// fresh literal: its allocation must be inside the per-port loop
-				if sl, ok := z.Val.(*ssa.Slice); ok {
-					if al, ok := sl.X.(*ssa.Alloc); ok {
-						if core.InnermostLoop(al) == nil {
-							bad = "the slice literal is allocated outside the per-port loop"
+			case s == "[]" || s == "makeslice()" || s == "nil":
+				// a fresh empty slice: it must be created anew for every joined port, i.e. inside the loop over the ports
+				if in, ok := z.Val.(ssa.Instruction); ok && z.Fn != nil {
+					inLoop := false
+					for _, cn := range gt.Nodes {
+						if cn.Instr == in {
+							if len(iterLoops(gt, cn)) > 0 {
+								inLoop = true
+							}
 						}
+					}
+					if sl, isSl := z.Val.(*ssa.Slice); isSl {
+						if al, isAl := sl.X.(*ssa.Alloc); isAl {
+							for _, cn := range gt.Nodes {
+								if cn.Instr == ssa.Instruction(al) && len(iterLoops(gt, cn)) > 0 {
+									inLoop = true
+								}
+							}
+						}
+					}
+					if !inLoop && s != "nil" {
+						bad = "the slice the members are collected into is created outside the per-port loop"
 					}
 				}
 			case s == "↺":
@@ -73,19 +90,22 @@ func c18(e *Env) {
 				bad = "the stored slice can be " + trunc(s, 120)
 			}
 		}
-		// the receive loop is complete (range over channel)
 		okLoop := false
-		for _, b := range nt.Blocks {
-			for _, in := range b.Instrs {
-				if u, ok := in.(*ssa.UnOp); ok && u.Op == token.ARROW && u.CommaOk {
-					chs := sy.InFunc(nt, u.X).String()
-					if strings.Contains(chs, ".SubStream.Chan") {
-						if l := core.InnermostLoop(u); l != nil {
-							if ex := p.EarlyExits(l); len(ex) > 0 {
-								bad = "the drain loop can be left before the sub-stream is closed: " + ex[0]
-							} else {
-								okLoop = true
-							}
+		for _, rn := range gt.Nodes {
+			if u, ok := rn.Instr.(*ssa.UnOp); ok && u.Op == token.ARROW && u.CommaOk {
+				chs := xs.InCtx(rn.Ctx, u.X).String()
+				if strings.Contains(chs, ".SubStream.Chan") {
+					las := iterLoops(gt, rn)
+					if len(las) > 0 {
+						okLoop = e.loopHarmlessExits(gt, las[0])
+						if !okLoop {
+							bad = "the drain loop can be left before the sub-stream is closed"
+						}
+					} else if l := core.InnermostLoop(u); l != nil {
+						// a range over a channel has no index/ok header of the recognised kinds: judge its early exits directly
+						okLoop = len(p.EarlyExitEdges(l)) == 0
+						if !okLoop {
+							bad = "the drain loop can be left before the sub-stream is closed"
 						}
 					}
 				}
@@ -93,52 +113,18 @@ func c18(e *Env) {
 		}
 		switch {
 		case bad != "":
-			ob1.Fail(e.where(mu), bad+" (the members of one joined port would leak into / be overwritten by another port's, or be incomplete)")
+			ob1.Fail(gt.Where(mn), bad+" (the members of one joined port would leak into / be overwritten by another port's, or be incomplete)")
 		case !hasAppendRecv || !okLoop:
-			ob1.Fail(e.where(mu), "the stored slice is not built by appending what is received from the carrier's SubStream channel until it is closed: "+trunc(v.String(), 160))
+			ob1.Fail(gt.Where(mn), "the stored slice is not built by appending what is received from the carrier's SubStream channel until it is closed: "+trunc(v.String(), 160))
 		default:
-			ob1.OK(e.where(mu), "subStreamIPs["+k+"] = all IPs received from "+k+"'s SubStream, fresh slice per port")
+			ob1.OK(gt.Where(mn), "subStreamIPs["+trunc(k, 40)+"] = all IPs received from that port's SubStream, fresh slice per port")
 		}
+	}
+	if nStores == 0 {
+		ob1.Fail("NewTask", "NewTask's call tree never fills Task.subStreamIPs")
 	}
 	// ---- R2 joined replacement
-	fi := e.formatter()
-	ob2 := r.Ob("R2", "formatter[arm i-join]", "the joined placeholder is Join([prefix(modifiers(Path(member))) …], PortInfo.joinSep) over all members in order")
-	if len(fi.problems) > 0 {
-		ob2.Unknown("-", strings.Join(fi.problems, ";"))
-	} else {
-		found := false
-		for _, alt := range fi.arms["i"] {
-			s := alt.sym
-			str := s.String()
-			if !strings.Contains(str, "$subStreamIPs[") {
-				continue
-			}
-			found = true
-			where := e.P.InstrPos(alt.pred.Instrs[len(alt.pred.Instrs)-1])
-			if !isCallSym(s, "strings.Join") {
-				ob2.Fail(where, "the replacement for a joined port is "+trunc(str, 200)+": modifiers or the prefix are applied to the joined string instead of to each member (only the first/last member is transformed)")
-				continue
-			}
-			sep := s.Args[1].String()
-			pieces := appendedPieces(s.Args[0])
-			okP := len(pieces) == 1
-			if okP {
-				ps := pieces[0].String()
-				okP = strings.HasPrefix(ps, "prependParentDirPath(applyPathModifiers("+fnPath+"($subStreamIPs[") && strings.Contains(ps, "[op+(φ(-1 | ↺), 1)]")
-			}
-			switch {
-			case !okP:
-				ob2.Fail(where, "the joined members are not prefix(modifiers(Path(member))) over the collected slice in index order: "+trunc(str, 200))
-			case !strings.HasSuffix(sep, ".joinSep"):
-				ob2.Fail(where, "the separator is "+sep+", not the one declared in the placeholder (PortInfo.joinSep)")
-			default:
-				ob2.OK(where, "Join(prefix(mods(Path(member)))…, "+sep+")")
-			}
-		}
-		if !found {
-			ob2.Fail(core.FuncName(fi.fn), "the {i:} arm has no alternative that uses the sub-stream members")
-		}
-	}
+	e.fmtJoin("R2")
 	ob2b := r.Ob("R2", "PortInfo.joinSep←join:(…)", "the separator stored in PortInfo comes from the capture group of the `join:(…)` pattern of the placeholder")
 	if ip := p.DeclaredMethod("scipipe", "Process", "initPortsFromCmdPattern"); ip != nil {
 		found := false
